@@ -328,6 +328,7 @@ def execute(arg):
 
     status, _ = C.run_world(world, main())
     out = {"status": status, "digest": world.digest(), "steps": world.steps, "simtime": world.clock.now,
+           "wall_hits": runner._WALL["hits"],
            "counters": dict(world.net.counters), "events": len(world.events)}
     for s, st in sides.items():
         frames = [C.strip_tcp_tx(q["raw"], st["tr"]).hex() for q in st["dev"].requests]
@@ -343,6 +344,8 @@ def run_case(case):
         if st != "ok":
             raise RuntimeError("C20 sub-run failed: " + str(res))
         runs[which] = res
+        if res.get("wall_hits"):
+            runner._WALL["hits"] += res["wall_hits"]   # a busy loop interrupted in the sub-run counts for this case
     violations = []
     keys = set()
 
